@@ -115,8 +115,8 @@ type c09Prefix = struct {
 
 var c09Servers = []c09Server{
 	{"none", nil, []c09Prefix{{"http://any.test", true, "", false}, {"http://any.test", true, "", true}}},
-	{"/v1", l(m("url", "/v1")), []c09Prefix{{"http://any.test/v1", true, "/v1", true}, {"http://any.test", false, "", true}, {"http://any.test/v2", false, "", true}}},
-	{"http://h.example/v1", l(m("url", "http://h.example/v1")), []c09Prefix{{"http://h.example/v1", true, "/v1", false}, {"http://other.test/v1", false, "", false}, {"http://h.example/v2", false, "", false}}},
+	{"/v1", l(m("url", "/v1")), []c09Prefix{{"http://any.test/v1", true, "/v1", true}, {"http://any.test", false, "", true}, {"http://any.test/v2", false, "", true}, {"http://any.test/V1", false, "", true}}}, // paths are case-sensitive
+	{"http://h.example/v1", l(m("url", "http://h.example/v1")), []c09Prefix{{"http://h.example/v1", true, "/v1", false}, {"http://other.test/v1", false, "", false}, {"http://h.example/v2", false, "", false}, {"http://h.example/V1", false, "", false}}},
 	{"https://{env}.example/{base}", l(m("url", "https://{env}.example/{base}", "variables", m("env", m("default", "prod", "enum", l("prod", "dev")), "base", m("default", "v1")))),
 		[]c09Prefix{{"https://prod.example/v1", true, "/v1", false}, {"https://dev.example/v1", true, "/v1", false}, {"https://other.test/v1", false, "", false}}},
 	{"two servers", l(m("url", "/v1"), m("url", "/api")), []c09Prefix{{"http://any.test/v1", true, "/v1", true}, {"http://any.test/api", true, "/api", true}, {"http://any.test/v3", false, "", true}}},
